@@ -409,6 +409,49 @@ func ruleIndex(r *core.Reporter) {
 	}
 }
 
+// onceWrittenCell: v is a load of a local cell of `owner` (directly, or through a capture) that is written exactly
+// once, by owner itself and by none of its literals; the stored value is returned. The per-iteration loop variable
+// of a loop whose body makes a closure, and a slice that is never reassigned, are such cells.
+func onceWrittenCell(v ssa.Value, owner *ssa.Function) ssa.Value {
+	u, ok := v.(*ssa.UnOp)
+	if !ok || u.Op != token.MUL {
+		return nil
+	}
+	var al *ssa.Alloc
+	switch x := u.X.(type) {
+	case *ssa.FreeVar:
+		al, _ = ir.FreeVarBinding(x).(*ssa.Alloc)
+	case *ssa.Alloc:
+		al = x
+	}
+	if al == nil || al.Parent() != owner {
+		return nil
+	}
+	var val ssa.Value
+	n := 0
+	for _, rf := range ir.Referrers(al) {
+		if st, isSt := rf.(*ssa.Store); isSt && st.Addr == ssa.Value(al) {
+			n++
+			val = st.Val
+		}
+	}
+	for _, lit := range withAnon(owner) {
+		for _, fv2 := range lit.FreeVars {
+			if ir.FreeVarBinding(fv2) == ssa.Value(al) {
+				for _, rf := range ir.Referrers(fv2) {
+					if st, isSt := rf.(*ssa.Store); isSt && st.Addr == ssa.Value(fv2) {
+						n++
+					}
+				}
+			}
+		}
+	}
+	if n != 1 {
+		return nil
+	}
+	return val
+}
+
 func dischargeIndex(p *core.Program, s *indexSite) (string, bool) {
 	fn := s.fn
 	// fixed-size arrays (varargs / composite literals): constant index below the length
@@ -436,8 +479,31 @@ func dischargeIndex(p *core.Program, s *indexSite) (string, bool) {
 		if loopBounded(fn, s.in, s.x, s.idx) {
 			return "loop bound", true
 		}
+		// the loop variable lives in a cell because a literal in the body captures it
+		if iv := onceWrittenCell(s.idx, fn); iv != nil && loopBounded(fn, s.in, s.x, iv) {
+			return "loop bound (captured loop variable)", true
+		}
 		if descendingDelete(fn, s) {
 			return "descending in-place filter loop", true
+		}
+		// inside a function literal: slice and index are both captured cells that are written once (the
+		// per-iteration loop variable, a slice never reassigned) and the literal is created inside the loop
+		// that bounds the index by the slice's length — the bound holds whenever the literal runs
+		if parent := fn.Parent(); parent != nil {
+			captured := func(v ssa.Value) ssa.Value { return onceWrittenCell(v, parent) }
+			if ps, pi := captured(s.x), captured(s.idx); ps != nil && pi != nil {
+				var site ssa.Instruction
+				nsites := 0
+				allInstrs(parent, func(in ssa.Instruction) {
+					if mc, ok := in.(*ssa.MakeClosure); ok && mc.Fn == ssa.Value(fn) {
+						site = in
+						nsites++
+					}
+				})
+				if nsites == 1 && loopBounded(parent, site, ps, pi) {
+					return "captured loop index of the enclosing bounded loop", true
+				}
+			}
 		}
 		// constant index
 		if k, okc := ir.ConstInt(s.idx); okc && k >= 0 {
